@@ -121,6 +121,12 @@ partial def go (steps res : List String) (k : Nat) (pool : List (Option TA)) (f 
     | "isect" =>
       let A ← ent 1; let B ← ent 2; let D ← newDump
       if !(← getE (isIsectM D A B FUEL) "fuel") then f := f ++ [s!"violation step {k} isect-language {showTA D}"]
+      -- the product states are numbered by a counter that starts at 0 (`stateCnt++`): the reported map must take exactly
+      -- the values 0..n-1 (the library is built with poisoned uninitialised locals, so an uninitialised counter shows here)
+      let pm ← getE ((kv res s!"m{k}") >>= parsePairMap?) "bad product map"
+      let vals := pm.map (·.2)
+      if !((List.range vals.length).all (fun i => vals.contains i)) then
+        f := f ++ [s!"violation uninitialised-counter step {k}: product states are not numbered 0..{vals.length - 1}: {vals.take 6}"]
       let e ← getE (emptyM D FUEL) "fuel"
       tags := tags ++ [s!"isectempty={bchar e}"]
       pool' := pool ++ [some D]; touched := some newIx
